@@ -161,6 +161,36 @@ func Operators() []Op {
 			return map[string]interface{}{"@context": "https://www.w3.org/ns/activitystreams", "type": "Note"}, false
 		}},
 		{"duplicate-into-list", func(cur interface{}, g *prng.R) (interface{}, bool) { return []interface{}{cur, cur}, false }},
+		{"link-with-href-only", func(cur interface{}, g *prng.R) (interface{}, bool) {
+			// a Link is identified by its href: in an id-bearing position it
+			// stands for the value it points at
+			href := interface{}("https://remote.example/linked/" + g.Str("a", "b"))
+			switch g.Intn(6) {
+			case 0:
+				href = nil
+			case 1:
+				href = float64(7)
+			case 2:
+				href = "relative/path"
+			case 3:
+				if s, ok := cur.(string); ok {
+					href = s
+				} else if m, ok := cur.(map[string]interface{}); ok && m["id"] != nil {
+					href = m["id"]
+				}
+			}
+			return map[string]interface{}{"type": g.Str("Link", "Mention"), "href": href}, false
+		}},
+		{"two-types", func(cur interface{}, g *prng.R) (interface{}, bool) {
+			// a value with a type array naming two things
+			pair := [][]interface{}{{"Nope", "Create"}, {"Create", "Note"}, {"Person", "Follow"}, {"Link", "Note"}, {"Note", "Nope"}, {"Collection", "OrderedCollection"}}[g.Intn(6)]
+			if m, ok := cur.(map[string]interface{}); ok {
+				c := DeepCopy(m).(map[string]interface{})
+				c["type"] = pair
+				return c, false
+			}
+			return map[string]interface{}{"type": pair, "id": "https://remote.example/two-types"}, false
+		}},
 		{"retype", func(cur interface{}, g *prng.R) (interface{}, bool) {
 			// a well-formed value of ANOTHER known type where one type was expected
 			other := g.Str("Note", "Person", "Collection", "OrderedCollectionPage", "Link", "Mention", "Tombstone", "Follow", "Create", "Question", "Relationship", "Place")
